@@ -473,12 +473,21 @@ class PlanJoinTablesQuery:
         data_conditions = []
 
         def _check_conditions(node, **kwargs):
-            if not isinstance(node, BinaryOperation):
-                return
-
-            if node.op != '=':
+            if isinstance(node, BinaryOperation) and node.op != '=':
                 binary_ops.add(node.op.lower())
-                return
+
+        query_traversal(fetch_table.join_condition, _check_conditions)
+
+        binary_ops.discard('and')
+        if len(binary_ops) > 0:
+            # other operations exists, skip
+            return []
+
+        # only an equality that is a top-level conjunct restricts the rows to be joined:
+        #   not the one under NOT or inside a function
+        for node in self.get_conjuncts(fetch_table.join_condition):
+            if not isinstance(node, BinaryOperation) or node.op != '=':
+                continue
 
             arg1, arg2 = node.args
             table1 = self.get_table_for_column(arg1) if isinstance(arg1, Identifier) else None
@@ -486,7 +495,7 @@ class PlanJoinTablesQuery:
 
             if table1 is not fetch_table:
                 if table2 is not fetch_table:
-                    return
+                    continue
                 # set our table first
                 table1, table2 = table2, table1
                 arg1, arg2 = arg2, arg1
@@ -495,13 +504,6 @@ class PlanJoinTablesQuery:
                 conditions.append(node)
             elif table2 is not None:
                 data_conditions.append([arg1, arg2])
-
-        query_traversal(fetch_table.join_condition, _check_conditions)
-
-        binary_ops.discard('and')
-        if len(binary_ops) > 0:
-            # other operations exists, skip
-            return []
 
         for arg1, arg2 in data_conditions:
             # is fetched?
